@@ -11,12 +11,14 @@ Definition inner_match (m : inner) (tok : nat) : bool :=
 
 Inductive matcher := MNoResult | MSucceeded (m : inner) | MFailed (m : inner).
 
-(* on_deferred_result adds the capture pair (both pass their argument through),
-   then dispatches on what was captured; _Succeeded/_Failed add an errback
-   returning None after looking at a failure.  true = match() returned None. *)
+(* on_deferred_result adds the capture pair (both pass their argument through); the pair runs
+   at once iff the Deferred can hand out a result now, and then sees the current result; then it
+   dispatches on what was captured; _Succeeded/_Failed add an errback returning None after looking
+   at a failure.  true = match() returned None. *)
 Definition match_deferred (m : matcher) (d : deferred) (lg : log) : bool * deferred * log :=
   let '(d1, lg1) := add_callbacks (CPass, CPass) d lg in
-  match m, d_result d1 with
+  let captured := if runnable d then d_result d1 else None in
+  match m, captured with
   | MNoResult, None => (true, d1, lg1)
   | MNoResult, Some _ => (false, d1, lg1)
   | MSucceeded im, Some (RVal v) => (inner_match im v, d1, lg1)
@@ -32,7 +34,7 @@ Definition match_deferred (m : matcher) (d : deferred) (lg : log) : bool * defer
 (* extract_result: addCallbacks(successes.append, failures.append) - both return None *)
 Inductive xexc := XUser (e : nat) | XNotFired | XOther.
 Definition extract_result (d : deferred) (lg : log) : res nat xexc * deferred * log :=
-  let seen := d_result d in
+  let seen := if runnable d then d_result d else None in
   let '(d1, lg1) := add_callbacks (CConst 0, CConst 0) d lg in
   (match seen with
    | Some (RErr e) => Raised (XUser e)
@@ -46,7 +48,10 @@ Inductive op :=
 | OFire (v : nat)
 | OFail (e : nat)
 | OAdd (cb eb : cbfun)
-| OExtract.
+| OExtract
+| OPause                          (* d.pause() *)
+| OUnpause                        (* d.unpause(), if an earlier pause() of the history is still in force *)
+| OResume (x : dres).             (* the Deferred the chain waits for (if any) fires / fails *)
 
 Inductive opout :=
 | OutMatch (b : bool)
@@ -61,6 +66,9 @@ Definition step (o : op) (d : deferred) (lg : log) : opout * deferred * log :=
   | OFail e => match fire (RErr e) d lg with Some (d', lg') => (OutDone, d', lg') | None => (OutAlready, d, lg) end
   | OAdd cb eb => let '(d', lg') := add_callbacks (cb, eb) d lg in (OutDone, d', lg')
   | OExtract => let '(r, d', lg') := extract_result d lg in (OutExtract r, d', lg')
+  | OPause => (OutDone, pause d, lg)
+  | OUnpause => let '(d', lg') := unpause d lg in (OutDone, d', lg')
+  | OResume x => let '(d', lg') := resume x d lg in (OutDone, d', lg')
   end.
 
 (* does matching m against a Deferred in state s consume a failure *)
@@ -98,16 +106,18 @@ Inductive uret :=
 Definition direct_run_user (s : nat + nat) : uret :=
   match s with inl v => URet v | inr e => UCaught e end.
 
+Definition fired_with (x : dres) : deferred := mkD true (Some x) [] 0 false (is_rerr x).
+
 (* maybeDeferred(function); addErrback(_got_user_failure); extract_result.
    _got_user_failure returns the exception_caught sentinel: token [caught_tok]. *)
 Definition caught_tok := 4999.
 Definition sync_run_user (s : stage) : uret :=
   let d := match s with
-           | StReturn v => mkD true (Some (RVal v)) []       (* defer.succeed *)
-           | StRaise e => mkD true (Some (RErr e)) []        (* defer.fail(Failure()) *)
+           | StReturn v => fired_with (RVal v)               (* defer.succeed *)
+           | StRaise e => fired_with (RErr e)                (* defer.fail(Failure()) *)
            | StDeferred d => d
            end in
-  let caught := match d_result d with Some (RErr e) => Some e | _ => None end in   (* what the errback sees *)
+  let caught := if runnable d then match d_result d with Some (RErr e) => Some e | _ => None end else None in
   let '(d1, _) := add_callbacks (CPass, CConst caught_tok) d [] in
   match extract_result d1 [] with
   | (Ok v, _, _) => match caught with Some e => UCaught e | None => URet v end
